@@ -1026,80 +1026,146 @@ func (c *Ctx) c13ServerOnly(f *ircFacts) {
 		return
 	}
 	info := pm.Info()
-	g := c.Graph(pm)
+	_ = c.Graph(pm)
 	sp := f.sessionParam(pm)
 	_ = sp
-	// the dispatch look-up
+	// the dispatch look-up: in ProcessMessage itself, or in a helper it calls with the session's Server flag and the
+	// command (parameters are then read as the arguments of that one call)
 	cmds := c.P.Pkg("ircserver").Types.Scope().Lookup("Commands")
 	n := 0
-	ast.Inspect(pm.Body(), func(nd ast.Node) bool {
-		ie, ok := nd.(*ast.IndexExpr)
-		if !ok {
-			return true
-		}
-		id, ok := ast.Unparen(ie.X).(*ast.Ident)
-		if !ok || info.Uses[id] != cmds {
-			return true
-		}
-		n++
-		be, ok := ast.Unparen(ie.Index).(*ast.BinaryExpr)
-		okShape := false
-		if ok && be.Op == token.ADD {
-			pid, ok1 := ast.Unparen(be.X).(*ast.Ident)
-			cid, ok2 := ast.Unparen(be.Y).(*ast.Ident)
-			if ok1 && ok2 {
-				// command is upper-cased input
-				upper := false
-				if d := uniqueDef(info, pm.Node(), cid); d != nil {
-					if call, ok := ast.Unparen(d).(*ast.CallExpr); ok {
-						if fn := astx.Callee(info, call); fn != nil && isFunc(fn, "strings", "ToUpper") {
-							upper = true
-						}
-					}
+	analyse := func(fn *load.FuncInfo, bind map[types.Object]ast.Expr) {
+		finfo := fn.Info()
+		fg := c.Graph(fn)
+		// resolve an expression of fn to an expression of ProcessMessage where it is just a bound parameter
+		toPM := func(e ast.Expr) (ast.Expr, bool) {
+			if id, ok := ast.Unparen(e).(*ast.Ident); ok {
+				if a, ok := bind[astx.Obj(finfo, id)]; ok {
+					return a, true
 				}
-				// prefix is "server_" only under s.Server
-				po := astx.Obj(info, pid)
-				okPrefix, sets := true, 0
-				ast.Inspect(pm.Body(), func(m ast.Node) bool {
-					as, ok := m.(*ast.AssignStmt)
-					if !ok || len(as.Lhs) != 1 || len(as.Rhs) != 1 {
-						return true
+			}
+			return e, fn == pm
+		}
+		ast.Inspect(fn.Body(), func(nd ast.Node) bool {
+			ie, ok := nd.(*ast.IndexExpr)
+			if !ok {
+				return true
+			}
+			id, ok := ast.Unparen(ie.X).(*ast.Ident)
+			if !ok || finfo.Uses[id] != cmds {
+				return true
+			}
+			n++
+			be, ok := ast.Unparen(ie.Index).(*ast.BinaryExpr)
+			okShape := false
+			if ok && be.Op == token.ADD {
+				pid, ok1 := ast.Unparen(be.X).(*ast.Ident)
+				cid, ok2 := ast.Unparen(be.Y).(*ast.Ident)
+				if ok1 && ok2 {
+					// command is upper-cased input
+					upper := false
+					isUpper := func(inf *types.Info, d ast.Expr) bool {
+						if call, ok := ast.Unparen(d).(*ast.CallExpr); d != nil && ok {
+							if fn2 := astx.Callee(inf, call); fn2 != nil && isFunc(fn2, "strings", "ToUpper") {
+								return true
+							}
+						}
+						return false
 					}
-					l, ok := as.Lhs[0].(*ast.Ident)
-					if !ok || astx.Obj(info, l) != po {
-						return true
-					}
-					sets++
-					s, isConst := astx.ConstString(info, as.Rhs[0])
-					if !isConst {
-						okPrefix = false
-						return true
-					}
-					if s == "" {
-						return true
-					}
-					if strings.ToUpper(s) == s {
-						okPrefix = false // a prefix without lower-case letters could be typed by a client
-					}
-					guarded := false
-					for _, fct := range g.FactsAt(g.VertexOf(as)) {
-						if se, ok := ast.Unparen(fct.Expr).(*ast.SelectorExpr); ok && fct.Val && fct.Tag == nil && se.Sel.Name == "Server" {
-							guarded = true
+					if d := uniqueDef(finfo, fn.Node(), cid); d != nil {
+						upper = isUpper(finfo, d)
+					} else if a, bound := toPM(cid); bound && fn != pm {
+						if isUpper(info, a) {
+							upper = true
+						} else if d := uniqueDef(info, pm.Node(), a); d != nil {
+							upper = isUpper(info, d)
 						}
 					}
-					if !guarded {
-						okPrefix = false
-					}
-					return true
-				})
-				okShape = upper && okPrefix && sets >= 1
+					// prefix is "server_" only under s.Server
+					po := astx.Obj(finfo, pid)
+					okPrefix, sets := true, 0
+					ast.Inspect(fn.Body(), func(m ast.Node) bool {
+						as, ok := m.(*ast.AssignStmt)
+						if !ok || len(as.Lhs) != 1 || len(as.Rhs) != 1 {
+							return true
+						}
+						l, ok := as.Lhs[0].(*ast.Ident)
+						if !ok || astx.Obj(finfo, l) != po {
+							return true
+						}
+						sets++
+						s, isConst := astx.ConstString(finfo, as.Rhs[0])
+						if !isConst {
+							okPrefix = false
+							return true
+						}
+						if s == "" {
+							return true
+						}
+						if strings.ToUpper(s) == s {
+							okPrefix = false // a prefix without lower-case letters could be typed by a client
+						}
+						guarded := false
+						for _, fct := range fg.FactsAt(fg.VertexOf(as)) {
+							if !fct.Val || fct.Tag != nil {
+								continue
+							}
+							e, _ := toPM(fct.Expr)
+							if se, ok := ast.Unparen(e).(*ast.SelectorExpr); ok && se.Sel.Name == "Server" {
+								if tv, ok := info.Types[se.X]; ok && astx.IsNamed(tv.Type, pathIrcsrv, "Session") {
+									guarded = true
+								} else if tv, ok := finfo.Types[se.X]; ok && astx.IsNamed(tv.Type, pathIrcsrv, "Session") {
+									guarded = true
+								}
+							}
+						}
+						if !guarded {
+							okPrefix = false
+						}
+						return true
+					})
+					okShape = upper && okPrefix && sets >= 1
+				}
 			}
+			r.Check(okShape, "C13.E10", pm.Name(), "services commands are addressed only by server links", c.P.Pos(ie.Pos()),
+				"key = prefix + ToUpper(command), prefix non-empty (with lower-case letters) only under s.Server",
+				"the dispatch key for services commands can be produced for a session that is not an authenticated services link")
+			return true
+		})
+	}
+	analyse(pm, nil)
+	if n == 0 {
+		for _, call := range astx.Calls(pm.Body(), false) {
+			fn := astx.Callee(info, call)
+			if fn == nil {
+				continue
+			}
+			cal := c.P.FuncOf(fn)
+			if cal == nil || cal.Body() == nil || load.ShortPkg(cal.Pkg.PkgPath) != "ircserver" {
+				continue
+			}
+			uses := false
+			ast.Inspect(cal.Body(), func(m ast.Node) bool {
+				if id, ok := m.(*ast.Ident); ok && cal.Info().Uses[id] == cmds {
+					uses = true
+				}
+				return true
+			})
+			if !uses {
+				continue
+			}
+			bind := map[types.Object]ast.Expr{}
+			k := 0
+			for _, fld := range cal.FuncType().Params.List {
+				for _, nm := range fld.Names {
+					if k < len(call.Args) && len(defsOf(cal.Info(), cal.Node(), cal.Info().Defs[nm])) == 0 {
+						bind[cal.Info().Defs[nm]] = call.Args[k]
+					}
+					k++
+				}
+			}
+			analyse(cal, bind)
 		}
-		r.Check(okShape, "C13.E10", pm.Name(), "services commands are addressed only by server links", c.P.Pos(ie.Pos()),
-			"key = prefix + ToUpper(command), prefix non-empty (with lower-case letters) only under s.Server",
-			"the dispatch key for services commands can be produced for a session that is not an authenticated services link")
-		return true
-	})
+	}
 	r.Check(n == 1, "C13.E10", pm.Name(), "one dispatch look-up", c.P.Pos(pm.Node().Pos()), "found", "expected exactly one look-up in Commands inside ProcessMessage")
 	// server-only functions are referenced nowhere but in the registry / from other server-only functions
 	serverOnly := map[*load.FuncInfo]bool{}
